@@ -253,6 +253,82 @@ def server_case(ctx, rng, idx, mem, deadline):
         pair.close()
 
 
+CERTAINLY_BAD = [b"BAD\r\n\r\n", b"GET\r\n\r\n", b"GET / HTTP/1.1 extra words\r\n\r\n", b"\x00\x01\x02 / HTTP/1.1\r\n\r\n",
+                 b"GET / HTTP/9.9\r\n\r\n", b"GET / HTTP/1.1\r\nno colon here\r\n\r\n"]
+
+
+def big_app(environ, start_response):
+    body = (b"%s|" % environ.get("PATH_INFO", "").encode("latin-1")) * 4000
+    start_response("200 OK", [("Content-Type", "text/plain"), ("Content-Length", str(len(body)))])
+    return [body]
+
+
+def pipelined_garbage_case(ctx, rng, idx):
+    """a request that certainly fails arrives right behind a valid one on a kept-alive connection whose reader is slow:
+    it is parsed while part of the previous response is still queued for sending.  That request is marked failed and
+    its connection is closed -- now, not never."""
+    import random
+    bad = rng.choice(CERTAINLY_BAD)
+    pair = hg.Pair(big_app, rng=random.Random(rng.random()), mem=True, choppy=True)
+    raw = None
+    try:
+        raw = RawMem(pair)
+        tosend = bytearray(b"GET /big%d HTTP/1.1\r\nHost: h\r\n\r\n" % idx + bad)
+        escaped = None
+        pending_at_failure = None
+        seen_close = {}
+        orig_close = pair.valet.closeConnection
+
+        def spy(ca):        # (observation only: were response bytes still queued when the server closed the connection?)
+            ix = pair.valet.servant.ixes.get(ca)
+            seen_close["pending"] = bool(ix is not None and ix.txes)
+            return orig_close(ca)
+        pair.valet.closeConnection = spy
+        for rounds in range(600):
+            if tosend:                      # (the harness' own sends are accepted partly / not at all on this connection too)
+                try:
+                    del tosend[:raw.cs.send(bytes(tosend))]
+                except BlockingIOError:
+                    pass
+            pair.deliver()
+            try:
+                pair.valet.serviceAll()
+            except Exception as ex:      # noqa
+                escaped = "%s: %s" % (type(ex).__name__, str(ex)[:100])
+                break
+            rq = list(pair.valet.reqs.values())
+            if pending_at_failure is None and rq and rq[0].errored:
+                ix = list(pair.valet.servant.ixes.values())
+                pending_at_failure = bool(ix and ix[0].txes)
+            pair.deliver()
+            pair.store.advanceStamp(0.01)
+            if raw.closed_by_server() and rounds > 5:
+                break
+        ctx.event(rounds)
+        ctx.case(("pipelined-garbage", bad, idx), nontrivial=True)
+        ctx.hit("pipelined_garbage_cases")
+        if pending_at_failure or seen_close.get("pending"):
+            ctx.hit("request_failed_while_previous_response_still_queued")
+        wit = lambda: jsonable({"garbage": bad, "rounds": rounds, "received_bytes": len(raw.received()), "escaped": escaped,
+                                "still_in_reqs": len(pair.valet.reqs), "still_in_ixes": len(pair.valet.servant.ixes)})
+        if not ctx.check(escaped is None, "server/exception/pipelined-garbage", "%s escapes valet.serviceAll" % escaped, wit):
+            return
+        if tosend:
+            ctx.hit("pipelined_garbage_not_delivered")
+            return
+        if pending_at_failure is None and not raw.closed_by_server():
+            ctx.hit("pipelined_garbage_taken_for_a_request")        # (the parser is lenient with some of these: a request it is)
+            return
+        ctx.hit("pipelined_garbage_marked_failed")
+        ctx.check(raw.closed_by_server(), "server/failed-request-connection-not-closed",
+                  "the server marked the second request of a connection (%r) as failed, the connection was still open %d service "
+                  "rounds later" % (bad, rounds + 1), wit)
+    finally:
+        if raw:
+            raw.close()
+        pair.close()
+
+
 def gen_bad_response(rng):
     m = hg.gen_message(rng, kind="response", framing=rng.choice(["length", "chunked", "close", "length"]), seps=(": ",),
                        tail=b"", maxbody=30, interim=False, lf=False)
@@ -365,6 +441,8 @@ def worker(ctx, job):
         try:
             server_case(ctx, rng, i, mem=(i % 10 != 0), deadline=deadline)
             client_case(ctx, rng, i, deadline)
+            if i % 5 == 0:
+                pipelined_garbage_case(ctx, ctx.subrng("c32pg", job.get("index", 0), i), i)
         except (OSError, RuntimeError) as ex:      # the harness's own real sockets, never a verdict
             errs.append("%s: %s" % (type(ex).__name__, ex))
     hg.tolerate_socket_errors(ctx, errs, job["n"])
@@ -388,3 +466,4 @@ def run(ctx):
         ctx.floor("op:" + op, total // 60)
         ctx.floor("cop:" + op, total // 80)
     ctx.floor("cop:jsonbody", total // 40)
+    ctx.floor("request_failed_while_previous_response_still_queued", total // 40)
